@@ -184,6 +184,8 @@ def enumerate_programs(tier, seed):
 
 def _init_worker():
     sys.path.insert(0, VERIF)
+    import logging
+    logging.disable(logging.CRITICAL)      # the generator logs tracebacks of the crashes we record
     from vlib import boot  # noqa
     from django.db import connections
     for a in connections:
@@ -670,5 +672,189 @@ sys.path.insert(0, '/verif')
 from vlib import e2run
 rec = e2run.analyse((%(prop)r, %(pid)r, %(base)r, %(muts)s))
 print('REPLAY:', rec['status'], rec.get('detail', '')[:600], rec.get('replay'))
+sys.exit(1 if rec['status'] == 'violation' else 0)
+'''
+
+
+# ------------------------------------------------------------------------------ C03 on E2
+# batched (one optimised AppMutator run) vs one-at-a-time (one AppMutator per mutation, database
+# state rescanned in between, as separate upgrade runs would do): same final schema and row data
+
+def analyse_c03(args):
+    pid, bname, muts = args
+    from vlib import dbprog as D
+    from vlib import e2 as E
+    from vlib import sqlsmt as S
+    import z3
+    from django_evolution.errors import EvolutionException
+    from django_evolution.db.state import DatabaseState
+    from django_evolution.mutators import AppMutator
+    spec = base_specs()[bname]
+    rec = {'id': pid, 'base': bname, 'muts': muts, 'status': None}
+    try:
+        try:
+            D.evolved_spec(spec, muts)
+        except (KeyError, ValueError):
+            rec['status'] = 'invalid'
+            return rec
+        try:
+            # batched
+            D.reset_db('default')
+            D.create_tables(D.build_models(spec), 'default')
+            start_master = D.master('default')
+            start_cat = E.catalog('default')
+            proj, sqls = D.generate(spec, muts)
+            batched = D.flatten_sql(sqls[0])
+            D.execute(sqls[0])
+            cat_b = E.catalog('default')
+            # one at a time
+            D.reset_db('default')
+            classes = D.build_models(spec)
+            D.create_tables(classes, 'default')
+            sig = D.project_sig(classes)
+            single = []
+            for d_ in muts:
+                state = DatabaseState('default', scan=True)
+                am = AppMutator(app_label=D.APP, project_sig=sig, database_state=state, database='default')
+                am.run_mutations([D.to_mutation(d_)])
+                sql = am.to_sql()
+                single += D.flatten_sql(sql)
+                D.execute(sql)
+                sig = am.project_sig
+            cat_s = E.catalog('default')
+        except Exception as e:
+            rec['status'] = 'invalid'          # rejected or crashing programs are C01/C12 matters
+            rec['detail'] = '%s: %s' % (type(e).__name__, str(e)[:120])
+            return rec
+        rec['rebuilds_batched'] = sum(1 for (q, _p) in batched if q.startswith('CREATE TABLE "TEMP_TABLE"'))
+        rec['rebuilds_single'] = sum(1 for (q, _p) in single if q.startswith('CREATE TABLE "TEMP_TABLE"'))
+        kinds = []
+        struct = E.structural_diff(cat_b, cat_s)
+        try:
+            res, model, dt, _vals = E.acceptance_query(cat_b, cat_s)
+        except S.Unsupported as e:
+            rec['status'] = 'unsupported'
+            rec['detail'] = str(e)[:200]
+            return rec
+        rec['solver_s'] = dt
+        if struct or res == 'sat':
+            kinds += diff_kinds(cat_b, cat_s, struct, {'kind': 'acceptance', 'evolved_accepts': None}, '')
+            kinds = [k.replace('accept:evolved_stricter', 'accept') for k in kinds] or ['accept']
+        # data: interpret both statement lists over the same symbolic start contents
+        try:
+            vals = S.Values()
+            states = []
+            start_rows = None
+            for stmts in (batched, single):
+                st = S.DataState(vals, E.NROWS)
+                for (typ, name, tbl, sql) in start_master:
+                    if typ == 'table':
+                        ps = S.parse_statement(sql)
+                        st.add_symbolic_table(name, [c['name'] for c in ps['columns']],
+                                              [c['name'] for c in ps['columns'] if c['notnull'] or c['pk']])
+                if start_rows is None:
+                    start_rows = dict((t, [dict(r) for r in st.tables[t]['rows']]) for t in st.tables)
+                for (q, params) in stmts:
+                    st.run(S.parse_statement(q), params)
+                states.append(st)
+            a, b = states
+            disj = []
+            for t in a.tables:
+                if t not in b.tables or a.tables[t]['rows'] is None or b.tables[t]['rows'] is None:
+                    continue
+                for c in a.tables[t]['cols']:
+                    if c in b.tables[t]['cols']:
+                        for r in range(E.NROWS):
+                            disj.append(E.cell_neq(a.tables[t]['rows'][r][c], b.tables[t]['rows'][r][c]))
+            rec['cells'] = len(disj)
+            if disj:
+                s = z3.Solver()
+                s.set('timeout', 20000)
+                s.add(S.acceptance(dict((t, start_cat[t]) for t in start_cat if t in start_rows), start_rows, vals))
+                s.add(z3.Or(disj))
+                r = str(s.check())
+                if r == 'sat':
+                    kinds.append('data')
+                elif r != 'unsat':
+                    rec['status'] = 'unknown'
+                    return rec
+        except S.Unsupported as e:
+            rec['status'] = 'unsupported'
+            rec['detail'] = str(e)[:200]
+            return rec
+        if rec['rebuilds_batched'] > rec['rebuilds_single']:
+            kinds.append('more_rebuilds_batched')
+        if kinds:
+            rec['status'] = 'violation'
+            rec['diff_kinds'] = kinds
+            rec['detail'] = 'batched vs one-at-a-time differ: %s' % '; '.join(kinds)[:400]
+            rec['signature'] = signature(rec)
+        else:
+            rec['status'] = 'ok'
+    except Exception:
+        rec['status'] = 'error'
+        rec['detail'] = traceback.format_exc()[-800:]
+    return rec
+
+
+def run_c03(tier):
+    """-> (new violations, known-finding lines printed, coverage dict)"""
+    sys.path.insert(0, VERIF)
+    progs = [(pid, b, m) for (pid, b, m) in enumerate_programs('quick', 0) if len(m) >= 2]
+    if tier == 'quick':
+        progs = [p for p in progs if p[1] in ('plain', 'custom')]
+    from django.db import connections
+    for a in connections:
+        connections[a].close()
+    ctx = mp.get_context('fork')
+    with ctx.Pool(int(os.environ.get('VERIF_JOBS', '16')), initializer=_init_worker) as pool:
+        recs = pool.map(analyse_c03, progs, chunksize=8)
+    if os.environ.get('VERIF_E2_DUMP_C03'):
+        json.dump(recs, open(os.environ['VERIF_E2_DUMP_C03'], 'w'), default=str)
+    kfs = [e for e in load_kf('C03')]
+    sig_to_kf = {}
+    for e in kfs:
+        for sg in e.get('signatures', []):
+            sig_to_kf[sg] = e
+    viol = [r for r in recs if r['status'] == 'violation']
+    known, new = {}, []
+    for r in viol:
+        e = sig_to_kf.get(r.get('signature'))
+        if e is not None:
+            known.setdefault(e['id'], []).append(r)
+        else:
+            new.append(r)
+    for kid, rs in sorted(known.items()):
+        e = [x for x in kfs if x['id'] == kid][0]
+        print('KNOWN-FINDING: property=C03 %s [%d programs, e.g. %s %s]' % (e['what'], len(rs), rs[0]['id'], json.dumps(rs[0]['muts'])[:160]))
+    out = []
+    os.makedirs(os.path.join(VERIF, 'replays'), exist_ok=True)
+    for r in new[:20]:
+        h = hashlib.sha1(r['id'].encode()).hexdigest()[:10]
+        path = os.path.join(VERIF, 'replays', 'C03_e2_%s.py' % h)
+        with open(path, 'w') as f:
+            f.write(REPLAY_C03 % {'pid': r['id'], 'base': r['base'], 'muts': repr(r['muts'])})
+        os.chmod(path, 0o755)
+        out.append({'obligation': 'e2_batched_vs_single', 'call': '%s %s' % (r['id'], json.dumps(r['muts'])[:300]),
+                    'detail': r['detail'], 'replay': path})
+    counts = {}
+    for r in recs:
+        counts[r['status']] = counts.get(r['status'], 0) + 1
+    cov = {'programs': counts.get('ok', 0) + counts.get('violation', 0), 'counts': counts,
+           'known_findings': dict((k, len(v)) for k, v in known.items()),
+           'solver_s': round(sum(r.get('solver_s', 0) for r in recs), 2),
+           'programs_batched_fewer_rebuilds': len([r for r in recs if r.get('rebuilds_batched', 0) < r.get('rebuilds_single', 0)]),
+           'bounds': 'ordered pairs of the E2 alphabet on %s; 2 symbolic rows per table' % ('bases plain, custom' if tier == 'quick' else 'all five bases'),
+           'errors': [r.get('detail', '')[-300:] for r in recs if r['status'] == 'error'][:3]}
+    return out, cov
+
+
+REPLAY_C03 = '''#!/verif/.venv/bin/python
+# Replay of an E2 finding for C03 (batched vs one-at-a-time), program %(pid)s
+import sys
+sys.path.insert(0, '/verif')
+from vlib import e2run
+rec = e2run.analyse_c03((%(pid)r, %(base)r, %(muts)s))
+print('REPLAY:', rec['status'], rec.get('detail', '')[:600])
 sys.exit(1 if rec['status'] == 'violation' else 0)
 '''
